@@ -923,3 +923,198 @@ pub fn execute_c03_keys(plan: &Plan) -> Outcome {
         extra_cases: Vec::new(),
     }
 }
+
+// ---------------------------------------------------------------- datagrams inside streams, real client -> reference server
+
+/// C03, datagram formats that travel inside a stream (VMess command UDP, Trojan UDP ASSOCIATE): one application socket
+/// sends datagrams to two or three targets, alternating; every carrier connection the real client opens is read by the
+/// strict reference server. What the reference recovers - (target, payload) per datagram - must be exactly what the
+/// application sent, datagram by datagram.
+pub fn gen_c03_ustream(seed: u64, _thorough: bool) -> Plan {
+    let mut g = Gen::new(seed, 34);
+    let cells: [(Proto, &str); 3] = [(Proto::Trojan, "aes-128-gcm"), (Proto::Vmess, "aes-128-gcm"), (Proto::Vmess, "chacha20-poly1305")];
+    let (proto, cipher) = cells[seed as usize % 3];
+    // (the Trojan client carries datagrams over tls / wss / quic only: the reference server terminates TLS itself)
+    let mut config = gen_config(&mut g, proto, cipher, if proto == Proto::Trojan { Transport::Tls } else { Transport::Tcp }, 0);
+    config.client_mode = "tcp_and_udp".into();
+    let n_targets = g.range(2, 3) as usize;
+    let same_port = g.chance(40);
+    let p0 = g.range(1024, 60000) as u16;
+    let targets: Vec<(Option<String>, [u8; 4], u16)> = (0..n_targets)
+        .map(|i| (if g.chance(50) { Some(format!("t{i}-{}.ustream.c03.test", g.range(0, 99))) } else { None }, [127, 0, 34, 1 + i as u8], if same_port { p0 } else { g.range(1024, 60000) as u16 }))
+        .collect();
+    let sends: Vec<(usize, usize)> = (0..g.range(3, 9)).map(|_| (g.below(n_targets as u64) as usize, g.range(1, 1200) as usize)).collect();
+    Plan {
+        property: "C03".into(),
+        scenario: "interop-dgram-in-stream".into(),
+        seed,
+        net_seed: g.next(),
+        config,
+        knobs: KnobsPlan { read_style: *g.pick(&[0, 0, 3, 4]), ..KnobsPlan::simple() },
+        flows: vec![],
+        extra: serde_json::json!({ "targets": targets, "sends": sends }),
+    }
+}
+
+pub fn execute_c03_ustream(plan: &Plan) -> Outcome {
+    let c = creds(&plan.config);
+    let cell = plan.config.family();
+    let targets: Vec<(Option<String>, [u8; 4], u16)> = serde_json::from_value(plan.extra["targets"].clone()).unwrap_or_default();
+    let sends: Vec<(usize, usize)> = serde_json::from_value(plan.extra["sends"].clone()).unwrap_or_default();
+    let out = rt::run_sim(plan.seed, plan.net_seed, plan.knobs.to_knobs(), || async {
+        let mut findings: Vec<(String, String)> = Vec::new();
+        let Ok(listener) = TcpListener::bind(server_addr()).await else { return (Some("reference server bind".to_owned()), findings, 0usize) };
+        let client = start_client_json(rt::NODE_CLIENT, plan.config.client_json("127.0.0.1", SERVER_PORT));
+        tokio::task::yield_now().await;
+        if !settle(|| crate::nodes::udp_bound(CLIENT_PORT)).await {
+            return (Some(format!("client did not come up (finished={})", client.is_finished())), findings, 0);
+        }
+        // every carrier connection is recorded; a strict reference server of its own reads each of them afterwards
+        let streams: Arc<Mutex<Vec<Vec<u8>>>> = Arc::new(Mutex::new(Vec::new()));
+        let s2 = streams.clone();
+        let acceptor: Option<tokio_rustls::TlsAcceptor> = if plan.config.transport == Transport::Tls {
+            use tokio_rustls::rustls::pki_types::pem::PemObject;
+            let _ = tokio_rustls::rustls::crypto::aws_lc_rs::default_provider().install_default();
+            let cert = tokio_rustls::rustls::pki_types::CertificateDer::from_pem_file(CERT).ok();
+            let key = tokio_rustls::rustls::pki_types::PrivateKeyDer::from_pem_file(KEY).ok();
+            match (cert, key) {
+                (Some(cert), Some(key)) => tokio_rustls::rustls::ServerConfig::builder().with_no_client_auth().with_single_cert(vec![cert], key).ok().map(|cfg| tokio_rustls::TlsAcceptor::from(Arc::new(cfg))),
+                _ => None,
+            }
+        } else {
+            None
+        };
+        if plan.config.transport == Transport::Tls && acceptor.is_none() {
+            return (Some("the reference server cannot load its certificate".to_owned()), findings, 0);
+        }
+        let _acceptor = spawn_scoped(async move {
+            let mut conns = Vec::new();
+            loop {
+                let Ok((mut s, _)) = listener.accept().await else { return };
+                let ix = {
+                    let mut g = s2.lock().unwrap();
+                    g.push(Vec::new());
+                    g.len() - 1
+                };
+                let s3 = s2.clone();
+                let acceptor = acceptor.clone();
+                conns.push(spawn_scoped(async move {
+                    let mut buf = vec![0u8; 65536];
+                    match acceptor {
+                        Some(a) => {
+                            let Ok(mut s) = a.accept(s).await else { return };
+                            loop {
+                                match s.read(&mut buf).await {
+                                    Ok(0) | Err(_) => return,
+                                    Ok(n) => s3.lock().unwrap()[ix].extend_from_slice(&buf[..n]),
+                                }
+                            }
+                        }
+                        None => loop {
+                            match s.read(&mut buf).await {
+                                Ok(0) | Err(_) => return,
+                                Ok(n) => s3.lock().unwrap()[ix].extend_from_slice(&buf[..n]),
+                            }
+                        },
+                    }
+                }));
+            }
+        });
+        tokio::task::yield_now().await;
+        let app = UdpSocket::bind(SocketAddr::new(IpAddr::V4(Ipv4Addr::LOCALHOST), 0)).await.unwrap();
+        let mut want: Vec<(Addr, Vec<u8>)> = Vec::new();
+        for (i, (t, size)) in sends.iter().enumerate() {
+            let (name, ip, port) = &targets[*t % targets.len()];
+            let ut = crate::scen_udp::UdpTarget { ip: *ip, port: *port, name: name.clone(), replies: 0, reply_size: 0 };
+            let data = crate::scen_udp::dgram_payload(0, *t, i as u32 + 1, 0, *size);
+            let _ = app.send_to(&crate::scen_udp::socks5_udp_wrap(&ut, &data), SocketAddr::new(IpAddr::V4(Ipv4Addr::LOCALHOST), CLIENT_PORT)).await;
+            want.push((match name { Some(n) => Addr::Name(n.as_bytes().to_vec(), *port), None => Addr::V4(*ip, *port) }, data));
+            tokio::time::sleep(Duration::from_millis(200)).await;
+        }
+        tokio::time::sleep(Duration::from_secs(2)).await;
+        let mut got: Vec<(Addr, Vec<u8>)> = Vec::new();
+        let mut errors: Vec<String> = Vec::new();
+        for wire in streams.lock().unwrap().iter() {
+            let mut srv = RefServer::new(&c, unix_now());
+            if let Err(e) = srv.feed(wire) {
+                errors.push(e);
+                continue;
+            }
+            if srv.addr.is_some() && srv.command != 2 && srv.command != 3 {
+                errors.push(format!("a datagram carrier was opened with command {}", srv.command));
+                continue;
+            }
+            match c.proto {
+                // one datagram per chunk, all for the header's target
+                Proto::Vmess => got.extend(srv.packets.iter().map(|p| (srv.addr.clone().unwrap(), p.clone()))),
+                // Trojan: (ATYP addr port len CRLF data)* behind the request header
+                _ => {
+                    let mut used = 0;
+                    loop {
+                        match refimpl::trojan::parse_udp_packet(&srv.payload[used..]) {
+                            Ok(Some((a, d, n))) => {
+                                got.push((a, d));
+                                used += n;
+                            }
+                            Ok(None) => break,
+                            Err(e) => {
+                                errors.push(format!("datagram frame: {e}"));
+                                break;
+                            }
+                        }
+                    }
+                }
+            }
+        }
+        for e in errors.iter().take(2) {
+            findings.push(("dgram-in-stream/reference-refuses".into(), e.clone()));
+        }
+        // datagram by datagram: every datagram the reference recovered is one the application sent, with its own target
+        let mut left = want.clone();
+        for (a, d) in &got {
+            match left.iter().position(|(wa, wd)| wa == a && wd == d) {
+                Some(p) => {
+                    left.remove(p);
+                }
+                None => {
+                    let other = want.iter().find(|(_, wd)| wd == d).map(|(wa, _)| format!("{wa:?}"));
+                    findings.push(("dgram-in-stream/wrong-target-or-payload".into(), format!("the reference recovered a {}-byte datagram for {a:?}; the application sent that payload to {:?}", d.len(), other)));
+                    break;
+                }
+            }
+        }
+        if findings.is_empty() && !left.is_empty() && left.len() == want.len() {
+            findings.push(("dgram-in-stream/nothing-recovered".into(), format!("{} datagrams were sent, the reference recovered none", want.len())));
+        }
+        (None, findings, got.len())
+    });
+    let (startup, findings, recovered) = out.result.clone();
+    let mut v = Vec::new();
+    if let Some(e) = startup {
+        v.push(Violation::new("C03", format!("C03/dgram-in-stream/startup/{cell}"), e));
+    }
+    for (oracle, detail) in &findings {
+        v.push(Violation::new("C03", format!("C03/{oracle}/{cell}"), detail.clone()));
+    }
+    for p in &out.panics {
+        v.push(Violation::new("C03", format!("C03/panic/{cell}/dgram-in-stream/{}", p.frame), format!("panic in node {}: {} at {}", p.node, p.message, p.location)));
+    }
+    let mut probes = BTreeMap::new();
+    probes.insert("mode_dgram-in-stream-client-to-ref".to_owned(), 1);
+    probes.insert("dgram_in_stream_recovered".to_owned(), recovered as u64);
+    Outcome {
+        violations: v,
+        ev_hash: out.world.ev_hash,
+        ev_count: out.world.ev_count,
+        poll_hash: out.poll_hash,
+        polls: out.polls,
+        sim_ns: out.sim_ns,
+        stats: crate::report::world_stats(&out.world),
+        nontrivial: recovered > 0,
+        case_hash: out.poll_hash ^ plan.seed.wrapping_mul(0x9E3779B97F4A7C15),
+        probes,
+        panics: out.panics,
+        extra_evaluations: 0,
+        extra_cases: Vec::new(),
+    }
+}
